@@ -33,6 +33,8 @@ def run_mutant(spec, props, tier, seed):
         if spec.startswith("revert:"):
             c = spec.split(":", 1)[1]
             r = sh(f"git -C /repo show {c} | git -C {wt} apply -R")
+            if r.returncode:
+                r = sh(f"git -C /repo show {c} | git -C {wt} apply -R -C1 --recount")
         else:
             patch = Path(spec)
             if patch.is_dir():
@@ -40,6 +42,10 @@ def run_mutant(spec, props, tier, seed):
             if not patch.is_absolute():
                 patch = ROOT / patch
             r = sh(f"git -C {wt} apply {patch}")
+            if r.returncode:  # the context drifted through later repairs of /repo: less context, then fuzz
+                r = sh(f"git -C {wt} apply -C1 --recount {patch}")
+            if r.returncode:
+                r = sh(f"cd {wt} && patch -p1 -F3 -s < {patch}")
         if r.returncode:
             return spec, {p: ("apply-failed", r.stderr[-300:]) for p in props}
         env = dict(os.environ)
